@@ -15,9 +15,17 @@ What is proved here, for all inputs of the stated shape (no size bounds):
 * the two comment defects and their repair, on the minimal inputs, as evaluated by the model
   (`C01_comment_after_value_*`, `C01_comment_in_aggregate_*`).
 
-What is *not* proved (tied by correspondence on generated files only, see notes/C01.md): `read (render p ℓ) = p` for
-populated parameter lists (needs the per-literal lemmas of property C09 generalised from a fresh stream to a stream
-in mid-file), selects, complex instances, the header, and the fixed-point property of write∘read.
+* records: `SDAI_Application_instance::STEPread` reads `( p₁ , … , pₙ )` in any layout to the values of its tokens
+  (`C01_read_record_of_params`; `C01_read_record_partial` for the kinds of `Covered`: `$`, `*`, INTEGER, REAL, NUMBER,
+  STRING, ENUMERATION/BOOLEAN/LOGICAL, BINARY, references, aggregates of any of these element kinds);
+* files: both passes over a whole data section — `ReadData1` creates one instance per record, `ReadData2` reads every
+  parameter, forward references included, severity NULL, every layout (`C01_read_file_partial`); what
+  `STEPfile::WriteData` emits is read back to the instances written and writing again gives the same bytes
+  (`C01_file_write_read_partial`).
+
+What is *not* proved (tied by correspondence on generated files only, see notes/C01.md): typed selects, aggregates of
+NUMBER / of aggregates / of selects, subtype/supertype records in external mapping, the header section, REAL/NUMBER/
+enumeration/aggregate values on the write side of the file-level round trip.
 -/
 namespace StepModel.P21.C01
 open StepModel StepModel.P21 StepModel.P21.RLemmas StepModel.P21.Lemmas StepModel.P21.Grammar
@@ -80,11 +88,12 @@ theorem C01_string_list_witness :
     writeAggr dblOps { Generated.rwCfg with stringNodeAppends := true } emptyDict .string
         [.atom (.str (q "'x'")), .atom (.str (q "'y'"))] = q "('x','x''y')" := by decide
 
-/-- **every layout is skipped**: blanks and complete comments, in any number and order, in front of any token -/
+/-- **every layout is skipped**: blanks and complete comments, in any number and order, in front of any token (a token
+    starts with neither a blank, nor `/`, nor the backslash of a print control directive) -/
 theorem C01_token_separators_skipped (seps : List Byte) (hs : Seps seps) (l : List Byte) (c : Byte) (rest : List Byte)
-    (sk : Bool) (hc : isSpace c = false) (h47 : c ≠ 47) :
+    (sk : Bool) (hc : isSpace c = false) (h47 : c ≠ 47) (h92 : c ≠ 92) :
     readTokenSeparator (G l (seps ++ c :: rest) sk) = G (seps.reverse ++ l) (c :: rest) sk :=
-  readTokenSeparator_seps seps hs l c rest sk hc h47
+  readTokenSeparator_seps seps hs l c rest sk hc h47 h92
 
 /-- the hypothesis is satisfiable: ` /* c */ /**/\n` is a separator sequence -/
 example : Seps (q " /* c */ /**/\n") :=
@@ -261,13 +270,13 @@ theorem covered_ok {F} (env : Env F) (strict : Bool) (hcfg : env.lex.criSkipsCom
   | real a hty hder hred tok dec v htok hden hv hnn hbuf before after hbf ha =>
     exact ParamOK.real env strict hcfg a hty hder hred tok dec v htok hden hv hnn hbuf before after hbf ha
   | aggr a ety hty hder hred es inner hok hin before after hb ha =>
-    refine ⟨hred, ⟨40, (aggrTextG es inner).tail, by cases es <;> rfl, by decide, by decide⟩, hb, fun l sk d rest hd => ?_⟩
+    refine ⟨hred, ⟨40, (aggrTextG es inner).tail, by cases es <;> rfl, by decide, by decide, by decide⟩, hb, fun l sk d rest hd => ?_⟩
     obtain ⟨sk', _, h⟩ := attr_aggr env strict a ety hty hder hcfg hagg es inner
       (fun e he => elemCovered_rd env hcfg hagg ety e (hok e he)) hin l sk after ha d rest hd
     exact ⟨sk', h⟩
   | number a hty hder hred tok dec v htok hden hv hnn before after hbf ha =>
-    obtain ⟨c, u, hcu, hcs, _, _, _, h47⟩ := number_head tok htok
-    exact ⟨hred, ⟨c, u, hcu, hcs, h47⟩, hbf, fun l sk d rest hd =>
+    obtain ⟨c, u, hcu, hcs, _, _, _, h47, h92⟩ := number_head tok htok
+    exact ⟨hred, ⟨c, u, hcu, hcs, h47, h92⟩, hbf, fun l sk d rest hd =>
       ⟨sk, attr_number env strict a hty hder hcfg tok dec v htok hden hv hnn l sk after ha d rest hd⟩⟩
 
 /-- the same with the format flag tracked: a covered parameter is read without a message and leaves `skipws` as it was
